@@ -273,6 +273,40 @@ theorem encodeHost_total (o : Oracles) {h0 : Str} (hk : HostTextOK h0) : ∃ r, 
 
 /-! ### validation on -/
 
+theorem regPathA_mono {x r : Str} (h : regPathA x true = .ok r) : regPathA x false = .ok r := by
+  unfold regPathA at h ⊢
+  split
+  · rename_i ha
+    simp only [ha, if_true, Bool.true_and] at h
+    split at h
+    · cases h
+    · simpa using h
+  · rename_i ha
+    simp only [ha, Bool.false_eq_true, if_false] at h
+    cases h
+
+/-- the re-entry (fix 3fbf5b4): accepted with validation on → returned unchanged with validation off -/
+theorem encodeHostA_mono {o : Oracles} {x r : Str} (h : encodeHostA o x true = .ok r) :
+    encodeHostA o x false = .ok r := by
+  rw [encodeHostA_eqV] at h ⊢
+  cases hl : looksIP o x with
+  | error e => rw [hl] at h; cases h
+  | ok b =>
+    rw [hl] at h
+    simp only [bind, Except.bind] at h ⊢
+    cases b with
+    | false => simp only [Bool.false_eq_true, if_false] at h ⊢; exact regPathA_mono h
+    | true =>
+      simp only [if_true, ipResV_eq] at h ⊢
+      cases hm : ipRes x with
+      | none => rw [hm] at h; simp only [Option.map_none] at h ⊢; exact regPathA_mono h
+      | some r' =>
+        rw [hm] at h
+        simp only [Option.map_some, zoneBad_false, Bool.false_eq_true, if_false] at h ⊢
+        split at h
+        · cases h
+        · exact h
+
 theorem regPath_mono {o : Oracles} {x r : Str} (h : regPath o x true = .ok r) : regPath o x false = .ok r := by
   unfold regPath at h ⊢
   split
@@ -288,9 +322,15 @@ theorem regPath_mono {o : Oracles} {x r : Str} (h : regPath o x true = .ok r) : 
     | ok y =>
       rw [hi] at h
       simp only [bind, Except.bind, Bool.true_and] at h ⊢
-      split at h
-      · cases h
-      · simpa using h
+      split
+      · rename_i h58
+        rw [if_pos h58] at h
+        exact encodeHostA_mono h
+      · rename_i h58
+        rw [if_neg h58] at h
+        split at h
+        · cases h
+        · simpa using h
 
 /-- whatever `_encode_host` accepts with validation on, it returns unchanged with validation off -/
 theorem encodeHost_mono {o : Oracles} {x r : Str} (h : encodeHost o x true = .ok r) :
@@ -379,6 +419,50 @@ theorem hostTextOK_of_validated (o : Oracles) {h0 r : Str} (ha : isAscii h0 = tr
 theorem encodeHost_hostFix_validated (o : Oracles) {h0 r : Str} (ha : isAscii h0 = true) (hne : h0 ≠ [])
     (he : encodeHost o h0 true = .ok r) : ∃ h, r = bracket h ∧ HostFix o h := by
   obtain ⟨h, h1, h2, _⟩ := encodeHost_hostFix o (hostTextOK_of_validated o ha hne he) (encodeHost_mono he)
+  exact ⟨h, h1, h2⟩
+
+/-- (fix 3fbf5b4) a text with a ':' that the IP branch accepts under validation — the IDNA answer of a non-ASCII host
+    that spells an IP literal — is a supported host text, and its canonical form is (the bracketed form of) a stored
+    host satisfying `HostFix`.  No ASCII hypothesis: an IPv4 prefix is impossible (the ':' would sit in the zone, which
+    is screened), and for an IPv6 prefix the zone is screened. -/
+theorem hostTextOK_of_ipRes_colon {a r : Str} (h58 : 58 ∈ a) (hres : ipRes a = some r)
+    (hz : zoneBad a true = false) : HostTextOK a := by
+  have hzone : (partition 37 a).2.1 = true → ∀ c ∈ (partition 37 a).2.2, nameChar c = true :=
+    fun hsep => screened_nameChar (zoneBad_true_false hz hsep)
+  have hne : a ≠ [] := by rintro rfl; simp at h58
+  have hj := StrTotal.partition_join 37 a
+  cases hp : parseIP (partition 37 a).1 with
+  | none => simp [ipRes, hp] at hres
+  | some ip =>
+    cases ip with
+    | v4 o4 =>
+      exfalso
+      have h4 := StrTotal.parseIP_v4 hp
+      rw [hj] at h58
+      rcases List.mem_append.1 h58 with hc | hc
+      · exact parseIPv4_no_colon h4 hc
+      · cases hsep : (partition 37 a).2.1 with
+        | false => rw [hsep] at hc; simp at hc
+        | true =>
+          rw [hsep] at hc
+          simp only [if_true, List.mem_cons] at hc
+          rcases hc with hc | hc
+          · omega
+          · exact (nameChar_spec (hzone hsep 58 hc)).2.2.2.2.2.2.2.2 rfl
+    | v6 h8 =>
+      obtain ⟨_, h6⟩ := StrTotal.parseIP_v6 hp
+      refine ⟨hne, fun h => absurd h58 h, fun _ => ⟨h8, h6, ?_⟩⟩
+      intro c hc
+      cases hsep : (partition 37 a).2.1 with
+      | true => exact nameChar_text (hzone hsep c hc)
+      | false =>
+        rw [partition_nosep_rest hsep] at hc
+        simp at hc
+
+theorem hostFix_of_ipRes_colon (o : Oracles) {a r : Str} (h58 : 58 ∈ a) (hres : ipRes a = some r)
+    (hz : zoneBad a true = false) : ∃ h, r = bracket h ∧ HostFix o h := by
+  have he : encodeHost o a false = .ok r := encodeHost_ip (looksIP_of_colon o h58) hres (zoneBad_false _)
+  obtain ⟨h, h1, h2, _⟩ := encodeHost_hostFix o (hostTextOK_of_ipRes_colon h58 hres hz) he
   exact ⟨h, h1, h2⟩
 
 /-! ## the authority the constructor / `build` write -/
